@@ -27,7 +27,7 @@ def run(ctx):
     with ctx.rule('R17.1', 'intervals: tx = h, rx = 2h, from the negotiated heartbeat; nothing when 0', floor=6) as r:
         rows = P.table(ctx, HT + 'RxTxHeartbeat::new', ['timer', 'interval'])
         site = ctx.site(HT + 'RxTxHeartbeat::new')
-        want = '%sRxTxHeartbeat{rx: heartbeats::Heartbeat::start(%sHeartbeatKind::Rx, (%sMAX_MISSED_SERVER_HEARTBEATS * interval), timer), tx: heartbeats::Heartbeat::start(%sHeartbeatKind::Tx, interval, timer)}' % (HT, HT, HT, HT)
+        want = '%sRxTxHeartbeat{rx: heartbeats::Heartbeat::start(%sHeartbeatKind::Rx, (interval * %sMAX_MISSED_SERVER_HEARTBEATS), timer), tx: heartbeats::Heartbeat::start(%sHeartbeatKind::Tx, interval, timer)}' % (HT, HT, HT, HT)
         r.eq('rx-tx-intervals', rows[0].value_str() if len(rows) == 1 else None, want, site, why='rx timer = allowed missed heartbeats x interval with kind Rx; tx timer = interval with kind Tx')
         c = ctx.const(HT + 'MAX_MISSED_SERVER_HEARTBEATS')
         r.eq('max-missed', c.get('bits'), '2', None, why='silence is fatal after 2 intervals, not before')
@@ -122,7 +122,7 @@ def run(ctx):
         run_ = [x for x in rows if len(x.conds) == 1 and x.conds[0][1] is True]
         if r.check('rows', len(rows) == 2 and len(exp) == 1 and len(run_) == 1, site, built=[x.cond_strs() for x in rows]):
             import re
-            m = re.match(r'^\(\(%s \+ std::time::Duration::from_millis\((\d+)\)\) < self\.interval\)$' % re.escape(EL), exp[0].conds[0][0])
+            m = re.match(r'^\(\(std::time::Duration::from_millis\((\d+)\) \+ %s\) < self\.interval\)$' % re.escape(EL), exp[0].conds[0][0])
             r.check('comparison', bool(m) and int(m.group(1)) <= 50, site, built=exp[0].conds[0][0], expected='(self.interval <= (elapsed + Duration::from_millis(<small>)))')
             r.check('expired', exp[0].value_str() == 'heartbeats::HeartbeatState::Expired' and 'self.timeout = mio_extras::timer::Timer::set_timeout(timer, self.interval, self.val)' in exp[0].effects, site, built=exp[0].row())
             r.check('still-running', run_[0].value_str() == 'heartbeats::HeartbeatState::StillRunning' and 'self.timeout = mio_extras::timer::Timer::set_timeout(timer, (self.interval - %s), self.val)' % EL in run_[0].effects, site, built=run_[0].row(),
